@@ -101,7 +101,9 @@ class Documents(HypPart):
         return hex_tapes(20, 500 if tier == 'quick' else 1500).map(lambda h: {'tape': h, 'opts': {}})
 
     def check(self, case):
-        return check_case(case, {'exclude': self.excludes()})
+        # a third of the documents also carry link reference definitions and reference links
+        refs = int(case['tape'][:2] or '0', 16) % 3 == 0
+        return check_case(case, {'exclude': self.excludes(), 'refs': refs})
 
     def excludes(self):
         # writer switches that remove the input classes of open findings (see known_findings.json)
